@@ -11,7 +11,7 @@
    its duplicates, is the CID of some block).
    The model is the code as repaired by notes/fixes/C13-*.patch (see Inspect.v, "FIX"). *)
 From GoCar Require Import Bytes Varint Cid Header Frame V2Header Scan CliCmds Inspect.
-From GoCarProofs Require Import InspectFacts InspectC13 InspectQuick InspectCli.
+From GoCarProofs Require Import InspectFacts InspectC13 InspectQuick InspectCli InspectHistory.
 
 (* For every hash oracle, header decoder, option set (ZeroLengthSectionAsEOF, header limit,
    section limit up to go-cid's 32 MiB stream-parser cap) and EVERY byte string NewReader
@@ -115,3 +115,17 @@ Theorem C13_cli_inspect_full_reports_what_the_scan_finds :
       stats_of_istats ist = stats_of (r_version rd) (r_hdr rd) roots blocks codec.
 Proof. exact cli_inspect_full_agrees_with_scan. Qed.
 Print Assumptions C13_cli_inspect_full_reports_what_the_scan_finds.
+
+(* ---- round 3b: a history of calls on one Reader --------------------------------------------- *)
+(* [rrun] drives one Reader through a list of calls (Roots, DataReader, IndexReader, Inspect b);
+   the Reader's only mutable state is the roots cache filled by Roots().  Every call of every
+   history returns exactly what the same call returns on a fresh Reader, and Inspect after any
+   history is [inspect] of the bytes and the options: the Reader has no state that matters. *)
+Theorem C13_reader_calls_do_not_depend_on_history :
+  forall hok hdrdec o file rd ops validate,
+    fst (rstep hok hdrdec o file (snd (rrun hok hdrdec o file (fresh_reader rd) ops)) (OInspect validate))
+    = RInspect (inspect hok hdrdec o rd file validate) /\
+    fst (rrun hok hdrdec o file (fresh_reader rd) ops)
+    = map (fun op => fst (rstep hok hdrdec o file (fresh_reader rd) op)) ops.
+Proof. exact inspect_after_history. Qed.
+Print Assumptions C13_reader_calls_do_not_depend_on_history.
